@@ -590,7 +590,11 @@ func (g *gen) expr(t string, depth int) *Expr {
 				case 1:
 					args := []*Expr{eNum(r.Intn(7), 1)}
 					for i := r.Intn(4); i > 0; i-- {
-						args = append(args, eNum(r.Intn(9)-2, 1))
+						if v := r.Intn(9) - 2; v < 0 {
+							args = append(args, eNeg(eNum(-v, 1))) // (a negative number is written with a unary minus)
+						} else {
+							args = append(args, eNum(v, 1))
+						}
 					}
 					return eCall("csum", args...)
 				}
